@@ -325,3 +325,212 @@ func Consumer(n int, seed int64) []*e1.Program {
 	}
 	return out
 }
+
+// ---------------------------------------------------------------- transformer generators
+//
+// Generators that CONSUME other iterators: range loops over iterators whose bodies yield, with break / continue /
+// return in front of and behind the yield, in every statement context (if, switch / type-switch clause, outer loop,
+// block, nested transformer loop), `=` binding, hand pulls, and statements after each loop (so that a loop that
+// is left the wrong way — or not at all — is visible in the values that follow).
+//
+// Never generated: a break that targets a yielding switch and a continue of a loop whose post statement yields
+// (the two known findings of C01): break / continue only occur directly in the range loops they belong to, and
+// outer loops have plain post statements.
+
+type tgen struct {
+	cgen
+	left int
+}
+
+func (g *tgen) exit(afterYield bool) {
+	if g.rng.Intn(3) == 0 {
+		return
+	}
+	kind := []string{"break", "continue", "RETNIL"}[g.rng.Intn(3)]
+	switch g.rng.Intn(3) {
+	case 0:
+		g.line("if tr.B(%d) {", g.nid())
+		g.line("\ttr.E(%d)", g.nid())
+		g.line("\t%s", kind)
+		g.line("}")
+	case 1:
+		// the exit sits in a clause of a yield-free switch inside the loop body: `continue` / return pass
+		// through it, break would leave the switch only and is not generated here
+		if kind == "break" {
+			kind = "continue"
+		}
+		g.line("switch tr.N(%d, 2) {", g.nid())
+		g.line("case 0:")
+		g.line("\t%s", kind)
+		g.line("}")
+	default:
+		g.line("if tr.B(%d) {", g.nid())
+		g.line("\t%s", kind)
+		g.line("} else {")
+		g.line("\ttr.E(%d)", g.nid())
+		g.line("}")
+	}
+	g.feats["xf:"+strings.ToLower(strings.TrimPrefix(kind, "RET"))+map[bool]string{true: "-after-yield", false: "-before-yield"}[afterYield]] = true
+}
+
+func (g *tgen) loop(depth int) {
+	it := g.iterExpr()
+	v := fmt.Sprintf("v%d", g.nid())
+	assign := g.rng.Intn(5) == 0
+	if assign {
+		g.line("%s := -1", v)
+		g.line("for %s = range OVER<<%s>>OVER {", v, it)
+		g.feats["xf:assign-form"] = true
+	} else {
+		g.line("for %s := range OVER<<%s>>OVER {", v, it)
+	}
+	g.ind++
+	g.line("tr.V(%d, %s)", g.nid(), v)
+	g.exit(false)
+	switch g.rng.Intn(6) {
+	case 0:
+		// no yield in this loop at all (the loop stays a native loop over the generated iterator)
+		g.line("tr.E(%d)", g.nid())
+		g.feats["xf:yield-free-loop"] = true
+	case 1:
+		g.line("if tr.B(%d) {", g.nid())
+		g.line("\tYIELD(%s*10 + 1)", v)
+		g.line("}")
+	case 2:
+		if depth < 2 && g.left > 0 {
+			g.left--
+			g.loop(depth + 1)
+			g.feats["xf:nested"] = true
+		} else {
+			g.line("YIELD(%s * 10)", v)
+		}
+	default:
+		g.line("YIELD(%s * 10)", v)
+	}
+	g.exit(true)
+	g.line("tr.E(%d)", g.nid())
+	g.ind--
+	g.line("}")
+	if assign {
+		g.line("YIELD(%s)", v)
+	}
+}
+
+func (g *tgen) stmt(depth int) {
+	g.left--
+	switch r := g.rng.Intn(100); {
+	case r < 12:
+		g.line("tr.E(%d)", g.nid())
+	case r < 24:
+		g.line("YIELD(%d)", -g.nid())
+	case r < 50 || depth >= 3:
+		g.loop(depth)
+		if g.rng.Intn(2) == 0 {
+			g.line("YIELD(%d)", -g.nid())
+		}
+	case r < 60:
+		g.line("if tr.B(%d) {", g.nid())
+		g.block(depth + 1)
+		if g.rng.Intn(2) == 0 {
+			g.line("} else {")
+			g.block(depth + 1)
+		}
+		g.line("}")
+		g.feats["xf:in-if"] = true
+	case r < 72:
+		if g.rng.Intn(3) == 0 {
+			tv := fmt.Sprintf("t%d", g.nid())
+			g.line("switch %s := tr.Any(%d, 2).(type) {", tv, g.nid())
+			g.line("case int:")
+			g.line("\ttr.U(%s)", tv)
+			g.block(depth + 1)
+			g.line("default:")
+			g.line("\ttr.U(%s)", tv)
+		} else {
+			g.line("switch tr.N(%d, 3) {", g.nid())
+			g.line("case 0:")
+			g.block(depth + 1)
+			g.line("case 1:")
+			g.block(depth + 1)
+		}
+		g.line("}")
+		g.feats["xf:in-switch"] = true
+	case r < 84:
+		i := fmt.Sprintf("i%d", g.nid())
+		switch g.rng.Intn(3) {
+		case 0:
+			g.line("for %s := 0; %s < 2; %s++ {", i, i, i)
+		case 1:
+			g.line("for %s := range 2 {", i)
+			g.line("\ttr.U(%s)", i)
+		default:
+			g.line("%s := 0", i)
+			g.line("for %s < 2 {", i)
+			g.line("\t%s++", i)
+		}
+		g.block(depth + 1)
+		g.line("}")
+		g.feats["xf:in-outer-loop"] = true
+	case r < 90:
+		g.line("{")
+		g.block(depth + 1)
+		g.line("}")
+	default:
+		// hand pull inside the generator
+		it := fmt.Sprintf("p%d", g.nid())
+		g.line("%s := %s", it, g.iterExpr())
+		g.line("if %s.MoveNext() {", it)
+		g.line("\tYIELD(%s.Current() + 5)", it)
+		g.line("}")
+		g.line("for %s.MoveNext() {", it)
+		g.line("\tif tr.B(%d) {", g.nid())
+		g.line("\t\tbreak")
+		g.line("\t}")
+		g.line("\tYIELD(%s.Current())", it)
+		g.line("}")
+		g.line("YFROM(%s)", it)
+		g.feats["xf:hand-pull"] = true
+	}
+}
+
+func (g *tgen) block(depth int) {
+	g.ind++
+	n := 1 + g.rng.Intn(2)
+	for i := 0; i < n && g.left > 0; i++ {
+		g.stmt(depth)
+	}
+	if n == 0 || g.left <= 0 {
+		g.line("tr.E(%d)", g.nid())
+	}
+	g.ind--
+}
+
+// Transformer returns n PRNG generators that consume other iterators.
+func Transformer(n int, seed int64) []*e1.Program {
+	rng := rand.New(rand.NewSource(seed))
+	var out []*e1.Program
+	for i := 0; i < n; i++ {
+		g := &tgen{cgen: cgen{rng: rng, ind: 1, feats: map[string]bool{}}, left: 5 + rng.Intn(6)}
+		g.b.WriteString("func §gen() ITER[int] GEN[int]{\n")
+		k := 2 + rng.Intn(3)
+		for s := 0; s < k; s++ {
+			g.stmt(0)
+		}
+		g.line("YIELD(%d)", -g.nid())
+		g.line("RETNIL")
+		g.b.WriteString("}GEN\n")
+		text := consumerHelpers + g.b.String() + "func §E() { drv.Run[int](func() drv.It[int] { it := §gen(); return it }) }\n"
+		var fs []string
+		for f := range g.feats {
+			fs = append(fs, f)
+		}
+		sort.Strings(fs)
+		h := sha256.Sum256([]byte(text))
+		out = append(out, &e1.Program{
+			Name: fmt.Sprintf("r:xform:%d", i), Neutral: text, Features: fs,
+			Shape: hex.EncodeToString(h[:])[:12], Style: render.Style(rng.Intn(int(render.NStyles))),
+			MaxPaths: 48, MaxMoves: 40,
+		})
+	}
+	return out
+}
